@@ -16,7 +16,7 @@ EXPLANATION = (
     "MaxIterations/MaxTime; the result is status != Unsolved; (R3) every cycle folds elapsed time into the root "
     "timer (Timers::suspend) so solve_time advances; (R4) the timer stack is balanced on every path; (R5) the "
     "auxiliary loops are counter-bounded; (R6) dimension checks dominate construction and each relation diverges "
-    "when violated; (R7) the unreachable!() cone methods are dead: guarded by is_symmetric, or unreachable from the API roots; (R7b) settings validator and dispatcher accept the same option strings; (R9) P is reduced to its upper triangle and the cone list collapsed before use; (R10) the progress printer reaches _exp_str_reformat (which unwraps find('e')) only on the true edge of is_finite(value). NOT decided: absence "
+    "when violated; (R7) the unreachable!() cone methods are dead: guarded by is_symmetric, or unreachable from the API roots; (R7b) settings validator and dispatcher accept the same option strings; (R9) P is reduced to its upper triangle and the cone list collapsed before use; (R10) the progress printer reaches _exp_str_reformat (which unwraps find('e')) only on the true edge of is_finite(value); (R11) the QDLDL wrapper unwraps refactor() only while the engine's pivot regularisation is unconditionally on; (R12) who-may-write the status (re-run of the status provenance rule: a rollback or helper that resets it to Unsolved on a terminating path returns a non-terminal status). NOT decided: absence "
     "of all panics (bounds checks, arithmetic, BLAS failures), termination of data-dependent inner loops.")
 ASSUMPTIONS = [
     'rustc MIR construction and trait resolution are correct',
@@ -694,6 +694,28 @@ def exp_format_guard(rep, F, tag):
     R.guard(body)
 
 
+def qdldl_unwrap_guard(rep, F, tag, rid='C04.R11'):
+    """QDLDLDirectLDLSolver::refactor unwraps the Result of the numeric factorisation.  ZeroPivot is unreachable only because the
+    engine's own pivot regularisation is always on (regularize_enable(true) at construction); making that flag follow a user
+    setting turns an exact zero pivot into a panic inside solve()."""
+    R = rep.rule(rid, 'the QDLDL wrapper may unwrap refactor() only while the engine\'s pivot regularisation is unconditionally enabled')
+
+    def body():
+        rf = F.one(name='refactor', adt='QDLDLDirectLDLSolver')
+        unw = [c for c in rf.calls if c.callee.name in ('unwrap', 'expect') and canon(rf.sym_operand(c.args[0])).startswith('refactor(')]
+        nw = F.one(name='new', adt='QDLDLDirectLDLSolver')
+        re_ = [c for c in nw.calls if c.callee.name == 'regularize_enable']
+        val = canon(nw.sym_operand(re_[0].args[-1])) if len(re_) == 1 else None
+        if unw:
+            R.check(val == 'true', 'always-regularised' + tag,
+                    'QDLDLDirectLDLSolver::refactor unwraps the factorisation result, but the engine is built with regularize_enable(%s): with the '
+                    'pivot regularisation off an exact zero pivot returns ZeroPivot and solve() panics instead of ending in NumericalError' % val, nw.loc())
+        else:
+            R.ok('refactor-result-handled' + tag, {'regularize_enable': val})
+
+    R.guard(body)
+
+
 def run(ctx, rep, tier):
     for cfg in CONFIGS:
         F = ctx.facts(cfg)
@@ -709,6 +731,8 @@ def run(ctx, rep, tier):
         dead_panics(rep, F, G, tag)
         settings_strings(rep, F, tag)
         exp_format_guard(rep, F, tag)
+        qdldl_unwrap_guard(rep, F, tag)
+        shared.status_provenance(rep, F, E, tag, 'C04.R12', statuses=('Solved',), full_fn='check_convergence_full', slot=9)
         # degenerate cones (empty, singleton) are collapsed before anything else sees the cone list
         from . import c05
         c05.input_normalisation(_Ren(rep, 'C05.R5', 'C04.R9'), F, tag)
